@@ -14,7 +14,7 @@ values are abstract (`bool`, zero / non-zero counts, "the argument", "the output
 """
 from .callgraph import norm
 from .charset import _Eval, Opaque, MAXC
-from .facts import callee, op_const, op_place
+from .facts import callee, op_const, op_place, const_str
 
 
 class EncOpaque(Exception):
@@ -165,8 +165,9 @@ class EncEval:
                 return ("bool", bool(c.get("int")))
             if c.get("int") is not None:
                 return ("int", c["int"])
-            if c.get("bytes") is not None:
-                return ("strconst", bytes(c["bytes"]) if not isinstance(c["bytes"], (bytes, str)) else c["bytes"])
+            sv = const_str(c)
+            if isinstance(sv, (bytes, str)):
+                return ("strconst", sv)
             if "fn" in c:
                 return ("fnitem", c["fn"].get("inst") or c["fn"]["def"], c["fn"]["def"])
         return UNK
@@ -209,6 +210,15 @@ class EncEval:
         loops = []                      # finished loops: (header, emitted anything)
         loop = None                     # active loop: dict(header, queue, cur, items, emitted)
         whole_arg = False
+        argmap = None                   # per-class image after `replace` calls on the whole argument
+
+        def lits_of(v):
+            if v[0] == "strconst":
+                txt = v[1].decode("utf-8", "replace") if isinstance(v[1], bytes) else v[1]
+                return tuple(("lit", ord(ch)) for ch in txt)
+            if v[0] == "int":
+                return (("lit", v[1]),)
+            raise EncOpaque("replacement text is not a constant")
 
         def emit(item):
             nonlocal whole_arg
@@ -257,7 +267,9 @@ class EncEval:
                         pass        # a buffer was built and dropped; what is returned is the argument itself
                     return Result("identity", [], {c: (("cell",),) for c in S}, [])
                 if r == OUT:
-                    if whole_arg:
+                    if argmap is not None:
+                        per_cell = dict(argmap)
+                    elif whole_arg:
                         per_cell = {c: (("cell",),) for c in S}
                     elif not any(l[1] for l in loops):
                         per_cell = {c: () for c in S}       # no loop wrote anything: every character is dropped
@@ -371,6 +383,31 @@ class EncEval:
                             emit(("lit", ord(ch)))
                     else:
                         raise EncOpaque("push_str of a value that is neither a literal nor the argument")
+                elif has("<impl str>::replace") and len(args) == 3 and args[0] in (ARG, OUT):
+                    # `value.replace(pat, "..")`: every character the pattern matches becomes the constant text; applied to the
+                    # buffer of an earlier replace it rewrites that buffer's images (literals and characters alike)
+                    handled, res = True, OUT
+                    to = lits_of(args[2])
+                    if args[0] == ARG:
+                        if argmap is not None or whole_arg or prefix or suffix or loops or loop is not None:
+                            raise EncOpaque("replace on the argument while another output is being built")
+                        whole_arg = True
+                        argmap = {c: (to if self.pred_value(args[1], c) else (("cell",),)) for c in S}
+                    else:
+                        if argmap is None or prefix or suffix:
+                            raise EncOpaque("replace on a buffer that was not produced by replace")
+                        new_map = {}
+                        for c, img in argmap.items():
+                            out_img = []
+                            for it in img:
+                                if it == ("cell",):
+                                    hit = self.pred_value(args[1], c)
+                                else:
+                                    lc = self.cell_of(it[1])
+                                    hit = lc is not None and lc[0] == lc[1] and self.pred_value(args[1], lc)
+                                out_img.extend(to if hit else (it,))
+                            new_map[c] = tuple(out_img)
+                        argmap = new_map
                 elif names & set(OWNING) and args and args[0] == ARG:
                     handled, res = True, OUT
                     emit(("arg",))
